@@ -7,7 +7,13 @@ ID = "C02"
 N_QUICK = 5000
 N_THOROUGH = 100000
 LEAN_MODULES = ["JSV.Props.C02"]
-PREFILTER = vjudge.prefilter
+def PREFILTER(o, m):
+    if o["op"] == "decorate":
+        mo = (m or {}).get("model") or {}
+        return bool(mo) and not (vjudge.has_fuel(mo.get("a")) or vjudge.has_fuel(mo.get("b")))
+    return vjudge.prefilter(o, m)
+
+
 RULE = ("the 913 official draft-07 cases first, then generated draft-07 documents (definitions, dependencies in both forms, items in "
         "both forms, additionalItems, $id-as-anchor, $ref with siblings) x 6 instances, roots declaring each supported and several "
         "unsupported $schema values, remote documents with and without their own $schema referenced from the root or from a "
@@ -101,12 +107,41 @@ def ref_sibling_case(rng):
     return {"op": "validate", "args": {"schema": root, "insts": insts}, "meta": {"kw": 4, "refsib": pos}}
 
 
+D27_KW = ["minContains", "maxContains", "unevaluatedProperties", "unevaluatedItems"]
+
+
+def later_draft_case(rng):
+    """draft-07: keywords that only LATER drafts define (minContains, maxContains, unevaluatedProperties, unevaluatedItems) are
+    unknown keywords under draft-07 and must not assert. The pair (document without them, same document with them) must get the same
+    verdicts. Known finding D27: the evaluator applies these four also when the draft is draft-07 (it does skip prefixItems,
+    dependentRequired and dependentSchemas there)."""
+    c = gs.Ctx(rng, "7", depth=rng.choice([1, 2]))
+    doc = gs.gen_document(c, rng.choice(gs.D7_URIS))
+    if not isinstance(doc, Obj):
+        doc = Obj([("$schema", rng.choice(gs.D7_URIS))])
+    doc2 = Obj(list(doc.kvs))
+    k = rng.choice(D27_KW)
+    if k == "minContains":
+        doc.set("contains", Obj([("type", "number")])); doc2.set("contains", Obj([("type", "number")]))
+        doc2.set(k, gs.Num(str(rng.choice([0, 2, 3]))))
+    elif k == "maxContains":
+        doc.set("contains", Obj([("type", "number")])); doc2.set("contains", Obj([("type", "number")]))
+        doc2.set(k, gs.Num(str(rng.choice([0, 1]))))
+    else:
+        doc2.set(k, rng.choice([False, Obj([("type", "string")])]))
+    insts = [gs.gen_instance(rng) for _ in range(4)] + [[gs.Num("1"), gs.Num("2")], [gs.Num("1")], ["s"], Obj([("zz", gs.Num("1"))]), []]
+    return {"op": "decorate", "args": {"schema": doc, "schema2": doc2, "insts": insts}, "meta": {"kw": 3, "later": k}}
+
+
 def gen(rng, tier, n):
     ops = suite.suite_ops("draft7")
     depth = 3 if tier == "quick" else 4
     while len(ops) < n:
         r = rng.random()
         if r < 0.2:
+            if rng.random() < 0.1:
+                ops.append(later_draft_case(rng))      # known finding D27: drawn rarely
+                continue
             ops.append(remote_case(rng))
             continue
         if r < 0.33 and r >= 0.27:
@@ -138,4 +173,20 @@ def nontrivial(o):
 
 
 def judge(o, go, m):
+    if o["op"] == "decorate":
+        if go is None or m is None or "model" not in m:
+            return "violation:driver", "no answer"
+        if go.get("outcome") == "harness-error":
+            return "skip", go.get("detail")
+        mo = m["model"]
+        for side in ("a", "b"):
+            st, d = vjudge.judge_validate({"meta": {}}, go.get(side), mo.get(side), compare_targets=False)
+            if st.startswith("violation"):
+                return st, side + ": " + d
+        ga, gb = go.get("a") or {}, go.get("b") or {}
+        if (ga.get("outcome"), ga.get("verdicts")) != (gb.get("outcome"), gb.get("verdicts")):
+            # the real package does what the model (= the code) does: the listed finding, nothing else
+            return "known:D27", "a keyword of a later draft (%s) asserts under draft-07: %r vs %r" % (
+                (o.get("meta") or {}).get("later"), ga.get("verdicts"), gb.get("verdicts"))
+        return "agree", ""
     return vjudge.judge_validate(o, go, m)
